@@ -24,7 +24,7 @@ ASSUMPTIONS = ["a pure function of the same arguments returns the same result (u
 def in_scope(fn):
     if fn is None or not fn.output:
         return False
-    if not (fn.output.startswith('std::result::Result<') and fn.output.rstrip('>').endswith('Error')):
+    if not fn.output.startswith('std::result::Result<'):
         return False
     b = fn.body
     for i in range(1, b.arg_count + 1):
@@ -175,6 +175,21 @@ def check_instance(ctx, facts, S, key, fn, inst, scope, cfg):
     if not sites:
         ctx.ok('C07.atomic', '%s@%s' % (short_key, cfg), None, nontrivial=False)
         return
+    # mutation AFTER the failure was produced, on the way out (e.g. an RAII guard dropped by `?`)
+    ok_blocks = [b for (b, kind, d) in oks if kind == 'ctor']
+    from_ok = set()
+    for ob in ok_blocks:
+        from_ok |= body.reachable_flagged(ob)
+    for x in xs:
+        if x['kind'] == 'tail':
+            continue
+        tail = body.reachable_flagged(x['bb'])
+        for m in sites:
+            if m['bb'] in tail and m['bb'] != x['bb'] and m['bb'] not in from_ok:
+                ctx.violation('C07.atomic', '%s-after->%s' % (m['what'].split(' (')[0], xdesc(body, inst, x)),
+                              'state is modified (%s at %s) on the error path AFTER the failure %s was produced and before it is returned'
+                              % (m['what'], m['line'], xdesc(body, inst, x)), site=m['line'], fn=key, cfg=cfg,
+                              detail={'mutation': m['what'], 'err_exit': xdesc(body, inst, x)})
     for m in sites:
         after = body.reachable_from(m['bb'])
         for x in xs:
@@ -209,6 +224,17 @@ def check_instance(ctx, facts, S, key, fn, inst, scope, cfg):
                     if x['ts'] is not None and x['ts']['call_bb'] == m['bb']:
                         ctx.ok('C07.atomic', ident + '@' + cfg, {'exception': 'E1 `?` on in-scope callee', 'callee': m['callee']})
                         continue
+            # ---- E1': the failing call is an external mutator documented to leave its receiver unchanged on failure
+            if m['idx'] == 'term' and 'callee' in m and ATOMIC_EXT.search(m['callee'] or '') and x['ts'] is not None \
+                    and producer_chain(body, x['ts']['call_bb'], m['bb']):
+                ctx.ok('C07.atomic', ident + '@' + cfg, {'exception': "E1' external callee with documented failure atomicity", 'callee': m['callee']})
+                continue
+            if m['idx'] == 'term' and 'callee' in m and m.get('kind') in ('crate', 'cha') and x['ts'] is not None \
+                    and x['ts']['call_bb'] != m['bb'] and producer_chain(body, x['ts']['call_bb'], m['bb']):
+                g = S.inst(m['callee']).fn
+                if g is not None and in_scope(g):
+                    ctx.ok('C07.atomic', ident + '@' + cfg, {'exception': 'E1 `?` on in-scope callee through an error adaptor', 'callee': m['callee']})
+                    continue
             # ---- D1
             ok, why = d1(ctx, facts, S, key, fn, inst, m, x, cfg)
             if ok:
@@ -220,6 +246,26 @@ def check_instance(ctx, facts, S, key, fn, inst, scope, cfg):
                           site=m['line'], fn=key, cfg=cfg,
                           detail={'mutation': m['what'], 'mutation_at': m['line'], 'err_exit': xdesc(body, inst, x),
                                   'err_exit_at': exit_line(body, x)})
+
+
+ATOMIC_EXT = re.compile(r'^std::vec::Vec::<.*>::try_reserve(_exact)?$|^std::collections::.*::try_reserve$')
+ADAPT = re.compile(r'Result::<.*>::(map_err|or_else|and_then|map)$|Option::<.*>::(ok_or|ok_or_else)$')
+
+
+def producer_chain(body, call_bb, target_bb, depth=0):
+    """is the value tried at call_bb produced (through map_err-like adaptors) by the call at target_bb?"""
+    if call_bb is None or depth > 4:
+        return False
+    if call_bb == target_bb:
+        return True
+    t = body.term(call_bb)
+    if t['k'] != 'call' or not ADAPT.search(t['callee'].get('path') or ''):
+        return False
+    pl = op_place(t['args'][0]) if t['args'] else None
+    if pl is None or pl['p']:
+        return False
+    ds = [d for d in body.defs().get(pl['l'], []) if d[0] == 'call']
+    return len(ds) == 1 and producer_chain(body, ds[0][1], target_bb, depth + 1)
 
 
 def reach_from_succ(body, b):
